@@ -38,4 +38,9 @@ def main():
 
 
 if __name__ == "__main__":
-    sys.exit(main())
+    rc = main()
+    # everything is on disk by now; tearing down millions of recorded events object by object took
+    # longer than the check itself (C06 thorough: 11 minutes after its PASS line)
+    sys.stdout.flush()
+    sys.stderr.flush()
+    os._exit(rc if isinstance(rc, int) else (0 if rc is None else 1))
